@@ -90,7 +90,8 @@ def make_config(scn):
             generate_reports=scn.get("reports", False),
             dry_run=scn.get("dry_run", False),
             distributed_submitter=scn.get("dsub", True),
-            resource_monitor_type="none",
+            resource_monitor_type=scn.get("monitor", "none"),
+            resource_monitor_interval=1,
             verbose=g.get("verbose", False),
         )
         groups.append(SubmissionGroup(name=group_name(gi), submitter_params=sp).dict())
